@@ -74,6 +74,43 @@ fn build_table(rng: &mut Rng, pool: &IdPool, timeout: Duration) -> Table {
     table
 }
 
+/// Leaves one bucket with a pending candidate that the *next* table access will have to deal
+/// with: the bucket is filled, a further connected node becomes its pending candidate, and
+/// (optionally) a stored node is removed so that the candidate faces a free slot. With a zero
+/// pending timeout the candidate is due at once; nothing touches the bucket afterwards.
+/// Returns the bucket's log2 distance.
+fn stir(rng: &mut Rng, table: &mut Table, pool: &IdPool, free_a_slot: bool, timeout: Duration) -> Option<u64> {
+    let candidates: Vec<&(u64, Vec<Id>)> = pool.buckets.iter().filter(|(_, ids)| ids.len() >= 17).collect();
+    if candidates.is_empty() {
+        return None;
+    }
+    let (d, ids) = *rng.pick(&candidates);
+    let stored: BTreeSet<Id> = scan(table).into_iter().map(|(i, _)| i).filter(|i| kb::log2(i, &pool.local) == *d).collect();
+    let mut have = stored.len();
+    let mut spare: Vec<Id> = ids.iter().copied().filter(|i| !stored.contains(i)).collect();
+    // fill with disconnected nodes (a full bucket needs a disconnected node to take a candidate)
+    while have < 16 {
+        let id = spare.pop()?;
+        if let discv5::kbucket::InsertResult::Inserted = table.insert_or_update(&kb::key(&id), rng.next_u64() >> 8, kb::status(false, rng.bool())) {
+            have += 1;
+        }
+    }
+    let cand = spare.pop()?;
+    let r = table.insert_or_update(&kb::key(&cand), rng.next_u64() >> 8, kb::status(true, false));
+    if !matches!(r, discv5::kbucket::InsertResult::Pending { .. }) {
+        return Some(*d);
+    }
+    if free_a_slot {
+        let victim = *scan(table).iter().map(|(i, _)| i).find(|i| kb::log2(i, &pool.local) == *d && **i != cand)?;
+        table.remove(&kb::key(&victim));
+    }
+    if timeout > Duration::ZERO {
+        // the candidate (still waiting, possibly next to a free slot by now) becomes due
+        std::thread::sleep(timeout + Duration::from_millis(1));
+    }
+    Some(*d)
+}
+
 fn targets(rng: &mut Rng, pool: &IdPool, stored: &[(Id, u64)], p: &Params) -> Vec<(Id, &'static str)> {
     let local = pool.local;
     let mut t: Vec<(Id, &'static str)> = vec![(local, "local")];
@@ -122,12 +159,14 @@ fn targets(rng: &mut Rng, pool: &IdPool, stored: &[(Id, u64)], p: &Params) -> Ve
 pub fn scenario(seed: u64, p: &Params, rep: &mut Report) {
     let mut rng = Rng::new(seed);
     let nbuckets = 4 + rng.usize(40);
-    let per_bucket = 4 + rng.usize(18);
+    // half of the tables have buckets that can overflow (more candidate ids than 16 slots)
+    let per_bucket = if rng.bool() { 18 + rng.usize(5) } else { 4 + rng.usize(18) };
     let pool = IdPool::new(&mut rng, nbuckets, per_bucket, true);
-    let timeout = if rng.bool() {
-        Duration::ZERO
-    } else {
-        Duration::from_secs(3600)
+    // pending candidates are due at once, never, or after two (real) milliseconds
+    let timeout = match rng.below(3) {
+        0 => Duration::ZERO,
+        1 => Duration::from_secs(3600),
+        _ => Duration::from_millis(2),
     };
     let mut table = build_table(&mut rng, &pool, timeout);
     let stored = scan(&table);
@@ -139,6 +178,13 @@ pub fn scenario(seed: u64, p: &Params, rep: &mut Report) {
 
     for (target, class) in targets(&mut rng, &pool, &stored, p) {
         rep.evaluations += 1;
+        // now and then the lookup is the first access after a pending candidate became due
+        if timeout < Duration::from_secs(1) && rng.chance(1, 4) {
+            let free = rng.bool();
+            if stir(&mut rng, &mut table, &pool, free, timeout).is_some() {
+                rep.count("closest_with_due_pending_candidate");
+            }
+        }
         let tkey = kb::key(&target);
         let variant = rng.below(3);
         let got: Vec<(Id, Option<u64>, Option<bool>)> = match variant {
@@ -223,6 +269,15 @@ pub fn scenario(seed: u64, p: &Params, rep: &mut Report) {
             }
         }
         let max = *rng.pick(&[1usize, 2, 3, 15, 16, 17, 64]);
+        if timeout < Duration::from_secs(1) && rng.chance(1, 2) {
+            let free = rng.chance(2, 3);
+            if let Some(d) = stir(&mut rng, &mut table, &pool, free, timeout) {
+                rep.count("nbd_with_due_pending_candidate");
+                if !ds.contains(&d) {
+                    ds[0] = d;
+                }
+            }
+        }
         let got: Vec<Id> = table
             .nodes_by_distances(&ds, max)
             .into_iter()
